@@ -227,6 +227,26 @@ fn process(p: &dyn Prop, d: &mut Driver, case: &Case, st: &mut Stats, sample_eve
     }));
 }
 
+/// remove whatever scratch directories / files this process left in the temp directory
+/// (per-thread C10 roots, C07 probe files, C14/C18/C19 trees of cases cut short, C20 scripts)
+fn sweep_scratch() {
+    let pid = std::process::id();
+    let prefixes: Vec<String> = ["verif-c10-", "c07-", "duck-c14-", "duckverif-c18-", "duck-c19-", "verif-c20-"].iter().map(|p| format!("{}{}-", p, pid)).collect();
+    if let Ok(rd) = std::fs::read_dir(std::env::temp_dir()) {
+        for e in rd.flatten() {
+            let name = e.file_name().to_string_lossy().to_string();
+            if prefixes.iter().any(|p| name.starts_with(p)) {
+                let path = e.path();
+                if path.is_dir() {
+                    let _ = std::fs::remove_dir_all(&path);
+                } else {
+                    let _ = std::fs::remove_file(&path);
+                }
+            }
+        }
+    }
+}
+
 fn main() {
     let args: Vec<String> = std::env::args().collect();
     if args.len() < 2 {
@@ -294,6 +314,7 @@ fn main() {
                 "wall_s": start.elapsed().as_secs_f64(),
             });
             std::fs::write(&out, serde_json::to_string_pretty(&res).unwrap()).unwrap();
+            sweep_scratch();
         }
         "replay" => {
             let prop = props::lookup(&args[2]).expect("unknown property");
@@ -316,6 +337,7 @@ fn main() {
                     bad = true;
                 }
             }
+            sweep_scratch();
             std::process::exit(if bad { 1 } else { 0 });
         }
         _ => {
